@@ -215,4 +215,13 @@ theorem upgrade_order_facts :
     Helm.Spec.precedes "set originalRelease StatusSuperseded" "set upgradedRelease StatusDeployed" Helm.Gen.skelUpgradeReleasing = true := by
   decide
 
+/-- The history flags are bound to the fields the ledger theorems are about (regenerated from pkg/cmd at every
+run). -/
+theorem history_flags_bound :
+    Helm.Spec.forwardsAll Helm.Gen.upgradeFlags [("history-max", "client.MaxHistory")] = true ∧
+    Helm.Spec.forwardsAll Helm.Gen.rollbackFlags [("history-max", "client.MaxHistory")] = true ∧
+    Helm.Spec.forwardsAll Helm.Gen.uninstallFlags [("keep-history", "client.KeepHistory")] = true ∧
+    Helm.Spec.forwardsAll Helm.Gen.installFlags [("replace", "client.Replace")] = true := by
+  decide
+
 end Helm.Props.C01
